@@ -44,8 +44,8 @@ pub fn stdin_lines() -> Vec<String> {
 }
 
 /// run `f`, mapping a panic to Err(message) (panic = observable outcome for C13)
-pub fn guarded<T>(f: impl FnOnce() -> T + std::panic::UnwindSafe) -> Result<T, String> {
-    match std::panic::catch_unwind(f) {
+pub fn guarded<T>(f: impl FnOnce() -> T) -> Result<T, String> {
+    match std::panic::catch_unwind(std::panic::AssertUnwindSafe(f)) {
         Ok(v) => Ok(v),
         Err(e) => {
             let msg = if let Some(s) = e.downcast_ref::<&str>() {
